@@ -1,10 +1,22 @@
-"""Per-property check configuration (budgets, dense-build file patterns, expected probes)."""
+"""Per-property check configuration (budgets, dense-build file patterns, expected probes,
+manifest texts)."""
 
 PROPS = {
+    "C09": {
+        "quick_runs": 500, "quick_budget": 60, "thorough_budget": 900, "batch": 20,
+        "dense": r"^(window/counting_window|stream/processor_data|stream/handler_result)\.go$", "dense_share": 0.3,
+        "needs_fault": False,
+        "probes": ["trailing_remainder", "exact_multiple", "multi_key"],
+        "technique": "seeded schedule search over ingest / window goroutine / consumer with back-pressure; per-key batch reference model",
+        "level_text": "Seeded search over N, key tuples (incl. separator-laden and NULL keys), interleavings of keys, stream lengths N*k and N*k±1, tiny trigger/output buffers under back-pressure, slow consumers, and interleavings of the ingest goroutine, the counting-window goroutine and the consumer; every delivered result is compared with the reference 'rows (i-1)N+1..iN of that key', plus completeness at quiescence and aggregate consistency.",
+    },
     "C19": {
         "quick_runs": 600, "quick_budget": 60, "thorough_budget": 900, "batch": 20,
         "dense": r"^stream/(handler_data|strategy|processor_data|stream)\.go$", "dense_share": 0.3,
         "needs_fault": False,
         "probes": ["expanded", "expansion_migrated_rows", "ceiling_reached", "input_dropped"],
+        "technique": "seeded schedule search over producers x expansion migration x processor; multiset-conservation oracle at quiescence",
+        "level_text": "Seeded search over producer counts, buffer sizes (incl. 1), overflow strategies and their knobs, consumer speeds, clock stalls and interleavings at synchronisation-point granularity (statement granularity in dense builds) of senders, the expansion migration and the processor; conservation, no-duplicate, never-drop-under-block, capacity-ceiling, counter and per-producer-order oracle at quiescence.",
+        "level_note": "Trusted: go1.26.8 synctest fake clock, the additive instrumentation pass, the scheduler's mutex model. One recorded finding (C19/order@expand) is reported as KNOWN-FINDING; one defect fixed (b6f4451).",
     },
 }
